@@ -71,6 +71,10 @@ pub struct Stats {
     pub wall_s: f64,
     pub found: Vec<Found>,
     pub samples: Vec<serde_json::Value>,
+    /// a fault of the machinery itself (never a verdict)
+    pub engine_error: Option<String>,
+    /// unique-state count of the independent stateright enumeration, where it was run
+    pub stateright_states: Option<u64>,
 }
 
 pub struct Limits {
